@@ -321,8 +321,12 @@ private:
   std::atomic<unsigned int> masterVersion;
   Indexer indexer;
 
-  bool updateLocal(ThreadData& p) {
+  bool updateLocal(ThreadData& p, bool haveMasterLock = false) {
     if (p.lastMasterVersion != masterVersion.load(std::memory_order_relaxed)) {
+      // The log is only read under its lock: a concurrent push_back may
+      // reallocate the deque's map of blocks while operator[] walks it.
+      if (!haveMasterLock)
+        masterLock.lock();
       for (;
            p.lastMasterVersion < masterVersion.load(std::memory_order_relaxed);
            ++p.lastMasterVersion) {
@@ -336,6 +340,8 @@ private:
         assert(logEntry.second);
 #endif
       }
+      if (!haveMasterLock)
+        masterLock.unlock();
       return true;
     }
     return false;
@@ -469,7 +475,7 @@ private:
         return lC;
     } while (!masterLock.try_lock());
     // we have the write lock, update again then create
-    updateLocal(p);
+    updateLocal(p, true);
     CTy*& C2 = p.local[i];
     if (!C2) {
       C2                  = new (heap.allocate(sizeof(CTy))) CTy();
